@@ -44,14 +44,39 @@ pub fn short_loc(loc: &str) -> String {
     }
 }
 
-/// Run `f`, turning a panic into `Fail{clause:"panic", class:<file:line>}`.
+/// Stable identity of a panic site: source file (no line number — lines shift with every edit of the file)
+/// plus the message with every run of digits replaced by `N`.
+pub fn panic_class(loc: &str, msg: &str) -> String {
+    let loc = short_loc(loc);
+    let file = match loc.rfind(".rs:") {
+        Some(i) => &loc[..i + 3],
+        None => &loc[..],
+    };
+    let mut norm = String::new();
+    let mut in_digits = false;
+    for ch in msg.chars().take(120) {
+        if ch.is_ascii_digit() {
+            if !in_digits {
+                norm.push('N');
+            }
+            in_digits = true;
+        } else {
+            in_digits = false;
+            norm.push(if ch == '\n' { ' ' } else { ch });
+        }
+    }
+    format!("{file}: {norm}")
+}
+
+/// Run `f`, turning a panic into `Fail{clause:"panic", class:<file: normalised message>}`.
 pub fn catch<T>(f: impl FnOnce() -> T) -> Result<T, Fail> {
     match catch_unwind(AssertUnwindSafe(f)) {
         Ok(v) => Ok(v),
         Err(_) => {
             let (msg, loc) = take_last_panic();
+            let class = panic_class(&loc, &msg);
             let loc = short_loc(&loc);
-            Err(Fail { clause: "panic".into(), class: loc.clone(), detail: format!("panicked at {loc}: {msg}") })
+            Err(Fail { clause: "panic".into(), class, detail: format!("panicked at {loc}: {msg}") })
         }
     }
 }
